@@ -342,6 +342,10 @@ impl Monitor for C01 {
             doc.children.insert(0, ANode::pi(t, Some(d.trim_start())));
             ctx.count("leading_pi_resembling_a_declaration");
         }
+        if stream != 0 && rng.chance(1, 20) && add_xml_alias(&mut doc, rng) {
+            // a second binding of the XML namespace (prefix zx, or as the default namespace): only xmlns:xml may be left out
+            ctx.count("trees_with_a_second_binding_of_the_xml_namespace");
+        }
         if rng.chance(1, 12) && inject_cr(&mut doc, rng) {
             ctx.count("carriage_return_in_comment_or_pi");
         }
